@@ -89,8 +89,17 @@ def cmdline(argv=None):
     except:
         _exit()
     else:
+        # with an output encoding, render() returns bytes
         if output_file:
-            open(output_file, "wt", encoding=output_encoding).write(rendered)
+            if isinstance(rendered, bytes):
+                with open(output_file, "wb") as f:
+                    f.write(rendered)
+            else:
+                with open(output_file, "wt") as f:
+                    f.write(rendered)
+        elif isinstance(rendered, bytes):
+            sys.stdout.flush()
+            sys.stdout.buffer.write(rendered)
         else:
             sys.stdout.write(rendered)
 
